@@ -27,7 +27,8 @@ SETS = {
     # two shapes make the whole case), backslash escapes inside destinations and titles (an escaped backslash before an escaped
     # punctuation character, an escaped ampersand before an entity name). Shapes with inner line endings: oracle runs only, not the lemmas.
     "fullF": (["[a", "![a", "b]", "b][]", "b]\n\n[a b]: /u", "b][]\n\n[a b]: /u", r'[x](/p\\\(q "t\\\*u \&amp;")',
-               r'[e]: </p\\\(q> "x\\\*y \&amp;"', "[x][e] [e]"], ["", "> ", "- ", "  "], ["\n", "[a b]: /u\n"]),
+               r'[e]: </p\\\(q> "x\\\*y \&amp;"', "[x][e] [e]",
+               "[c]: /u\n[x][c", "[c]: /u\n![x][c ", "]", "] z"], ["", "> ", "- ", "  "], ["\n", "[a b]: /u\n"]),
     # a backslash as the last byte of a line inside every construct that may (title, label, raw tag, code span, plain destination) or
     # may not (<...> destination, autolink) continue on the next line; with CR and CRLF endings as fullGcr / fullGcrlf
     "fullG": (["[a](<b\\", "c>)", "[a](/u \"t\\", "u\")", "[a](/u\\", ")", "[a\\", "b]", "b]: /u", "<a b=\"c\\", "d\">", "`a\\", "b`", "<http://a\\", "b>",
